@@ -16,6 +16,13 @@ def trig_word(ts):
     return ",".join(("e" if not t else t.hex()) for t in ts) if ts else "-"
 
 
+def bare(cs):
+    """case line without the `@<worker>` prefix of the fork streams; `fork n` counts as `stats`"""
+    if cs.startswith("@"):
+        cs = cs.split(" ", 1)[1] if " " in cs else ""
+    return "stats" if cs.startswith("fork ") else cs
+
+
 def canon(line):
     """sort the trigger set of a hit, drop the lowmem flag (kept separately by the caller)"""
     w = line.split()
@@ -167,7 +174,7 @@ class Runner:
             w = o.split()
             if cs.startswith("new "):
                 proc = cs.split()[1] == "process"
-            if cs.startswith("store "):
+            if bare(cs).startswith("store "):
                 extra = []
                 if "copyfail" in w:
                     extra.append("copyfail")
@@ -201,7 +208,7 @@ class Runner:
         # judge: specification run over the implementation's answers (raw answers re-read: canon dropped lowmem,
         # which the judge needs, so run the harness output through again un-canonicalised)
         raw = seen[:len(out_i)]
-        jl = [f"{jprefix} {raw[k] if k < len(raw) else 'none'} ; {cases[k]}" for k in range(len(cases))]
+        jl = [f"{jprefix} {raw[k] if k < len(raw) else 'none'} ; {bare(cases[k])}" for k in range(len(cases))]
         rc, jout, jerr = self.c.run_lines(self.model, jl)
         jbad = [(k, jout[k] if k < len(jout) else "no-judge-output") for k in range(len(cases))
                 if not (k < len(jout) and jout[k] == "1")]
@@ -215,7 +222,7 @@ class Runner:
         rc, raw, err = self.c.run_lines(self.hbin, cases, [str(shm)])
         if rc != 0:
             return len(raw), "crash", raw, [], err
-        jl = [f"{jprefix} {raw[k] if k < len(raw) else 'none'} ; {cases[k]}" for k in range(len(cases))]
+        jl = [f"{jprefix} {raw[k] if k < len(raw) else 'none'} ; {bare(cases[k])}" for k in range(len(cases))]
         rc2, jout, jerr = self.c.run_lines(self.model, jl)
         rc3, mout, merr = self.c.run_lines(self.model, cases)
         for k in range(len(cases)):
@@ -239,6 +246,9 @@ class Runner:
             i = 1
             progressed = False
             while i < len(h) and runs < budget:
+                if any(x.startswith("fork ") for x in h[i:i + chunk]):
+                    i += chunk      # the worker processes of a fork history stay
+                    continue
                 cand = h[:i] + h[i + chunk:]
                 runs += 1
                 if len(cand) > 1 and pred(cand):
@@ -360,6 +370,20 @@ def pressure_history(rng, limit, shm, nops):
     return h + census_lines(keys)
 
 
+def fork_history(rng, limit, shm, nops, nworkers):
+    """a process-shared cache used from several processes forked after it was created: every line is executed by one
+    of the workers (0 = the creating process); the global history is the order of the lines"""
+    base = evict_history(rng, "process", limit, shm, nops)
+    h = [base[0], f"fork {nworkers}"]
+    burst, who = 0, 0
+    for l in base[1:]:
+        if burst == 0:
+            who, burst = rng.randrange(0, nworkers + 1), rng.choice((1, 1, 2, 3, 6))
+        burst -= 1
+        h.append(f"@{who} {l}")
+    return h
+
+
 def fill_history(rng, limit, shm, cycles, per_cycle):
     """fill / refill with fresh keys and values near the per-item share (the allocator must keep making room by
     evicting the least recently used entries: every fresh store fetchable, survivors = the most recent ones)"""
@@ -390,6 +414,7 @@ def check_census(cases, raw, hist_of):
     bad = []
     i = 0
     n = len(cases)
+    cases = [bare(c) if c.startswith("@") else c for c in cases]
     while i < n:
         if cases[i] == "stats" and i + 1 < n and cases[i + 1].startswith(f"fetch {FAR_PAST} "):
             w = raw[i].split() if i < len(raw) else []
@@ -449,13 +474,34 @@ def iface_ops(rng, now, frames, trigs, depth_ids, in_page):
     return ops
 
 
-def iface_history(rng, limit, nlines):
+def iface_many_history(rng, cfg, n):
+    """more live entries than the default limit of cache_pool (64): n frames (and a few pages) stored, then every one
+    fetched in storing order; `cfg` = the inew line (configured cache.limit: absent, 0 = unlimited, 1, 64, 65, 1000, …)"""
+    now = 1000
+    h = [cfg]
+    keys = [b"m%d" % i for i in range(n)]
+    for i, k in enumerate(keys):
+        if i % 10 == 9:
+            h.append(f"ipage {now} {hx(b'q%d' % i)} -1 {hx(bytes([i % 256]))} ifetch:{now}:{hx(keys[i - 1])}:0")
+        h.append(f"istore {now} {hx(k)} {hx(bytes([i % 256, 7]))} {trig_word([b't%d' % (i % 3)]) if i % 4 == 0 else '-'} {rng.choice((-1, 500))} {'1' if i % 2 else '0'}")
+    h.append("istats")
+    for k in keys:
+        h.append(f"ifetch {now + 1} {hx(k)} 1")
+    for i in range(9, n, 10):
+        h.append(f"ipage {now + 1} {hx(b'q%d' % i)} -1 00 -")
+    h.append("irise " + b"t1".hex())
+    for k in keys[:: max(1, n // 20)]:
+        h.append(f"ifetch {now + 2} {hx(k)} 1")
+    return h
+
+
+def iface_history(rng, cfg, nlines):
     frames = [b"f%d" % i for i in range(rng.choice((2, 4)))]
     pages = [b"p%d" % i for i in range(rng.choice((1, 3)))]
     trigs = [b"t%d" % i for i in range(3)] + frames[:1] + pages[:1]
     ids = [1]
     now = 1000
-    h = [f"inew {limit}"]
+    h = [cfg]
     for _ in range(nlines):
         now += rng.choice((0, 0, 1, 2, 5))
         r = rng.random()
@@ -520,6 +566,8 @@ def iface_judge(cases, outs):
     def run_op1(w, res, rec, now):
         if w[0] == "iadd":
             rec.add(w[1])
+        elif w[0] == "ifetch" and res.startswith("miss") and unlimited[0] and live(frames.get(w[2]), now):
+            return f"frame {w[2]} is live (stored, not expired, no trigger raised) and cache.limit=0 configures no size limit, but the fetch missed"
         elif w[0] == "ifetch":
             if res.startswith("hit") and w[3] == "0":
                 ent = frames.get(w[2])
@@ -541,11 +589,15 @@ def iface_judge(cases, outs):
         return None
     glob = set()
     grecs = {}
+    unlimited = [False]
     for k, (cs, o) in enumerate(zip(cases, outs)):
         w = cs.split()
         res = o.split("|")[0].strip()
         if w[0] == "inew":
             frames, pages, glob, grecs = {}, {}, set(), {}
+            # configured cache.limit = 0 means "no limit on the number of entries" (a live entry is always found);
+            # absent = the back-end's default limit
+            unlimited[0] = len(w) > 2 and w[2] == "0"
         elif w[0] == "ipage":
             now, key, tmo = int(w[1]), w[2], int(w[3])
             if res.startswith("cached"):
@@ -555,6 +607,8 @@ def iface_judge(cases, outs):
                 elif res.split()[1] != ent[2]:
                     bad.append((k, f"page {key} served with a body that is not the one stored"))
             elif res.startswith("built"):
+                if unlimited[0] and live(pages.get(key), now):
+                    bad.append((k, f"page {key} is live and cache.limit=0 configures no size limit, but it was not served from the cache"))
                 rec = set()
                 precs = {}
                 answers = res.split(None, 1)[1].split(";") if len(res.split(None, 1)) > 1 else []
